@@ -12,3 +12,30 @@ func H_escape_roundtrip() {
 	s := vxrt.Text("s", n)
 	vxrt.Assert(unescapeEndChars(escapeEndChars(s)) == s, "escape-roundtrip")
 }
+
+// H_C01_snapshot: record one MatchSnapshot value, then replay it.
+func H_C01_snapshot() {
+	vxrt.CI(false)
+	dir := vxrt.Dir()
+	c := WithConfig(Dir(dir), Filename("f"))
+	n := vxrt.Len("n", 0, vxrt.Param("n", 4))
+	body := vxrt.Text("body", n)
+	vxrt.Assume(noCRAtEOL(body))
+	vxrt.Assume(plainText(body))
+
+	t1 := newT("TestA")
+	c.MatchSnapshot(t1, body)
+	t1.end()
+	vxrt.Assert(len(t1.errors) == 0, "C01:record-no-error")
+	vxrt.Assert(len(t1.logs) == 1, "C01:record-logs-added")
+	stamp := vxrt.FSStamp()
+	before := dumpDir(dir)
+
+	t2 := newT("TestA")
+	c.MatchSnapshot(t2, body)
+	t2.end()
+	vxrt.Assert(len(t2.errors) == 0, "C01:replay-no-error")
+	vxrt.Assert(len(t2.logs) == 0, "C01:replay-no-log")
+	vxrt.Assert(vxrt.FSStamp() == stamp, "C01:replay-no-write")
+	vxrt.Assert(vxrt.Eq(dumpDir(dir), before), "C01:replay-dir-unchanged")
+}
